@@ -177,6 +177,9 @@ def to_coq(c):
     if op == "sesscheck":
         exp = "(Some (%s, %s))" % (B(o.get("out")), Z(o["left"])) if o["ok"] else "None"
         return "CSessCheck %s %d %s %s %s" % (mtab(c.get("macs")), c["key"], Z(c["now"]), B(c.get("tok")), exp)
+    if op == "gatecheck":
+        return "CGate %s %d %s %s %s" % (mtab(c.get("macs")), c["key"], Z(c["now"]), B(c.get("tok")),
+                                         OB(o["ok"], o.get("out")))
     if op == "tsnew":
         return "CTsNew %s %d %s %s" % (mtab(c.get("macs")), c["key"], Z(c["t0"]), B(o.get("out")))
     if op == "tscheck":
@@ -320,6 +323,10 @@ class Oracle:
                 return ("jwt-time:%s" % ("accepted-outside" if o["ok"] else "rejected-inside"),
                         "CheckTime iat=%s exp=%s now=%s gave ok=%s" % (c["c"]["iat"], c["c"]["exp"], c["now"], o["ok"]))
             return None
+        if op == "jwths" and o["ok"] and c.get("hp") != c.get("pin"):
+            return "jwt-hs:accepted-unpinned-header", "a token whose header is not the pinned one was accepted"
+        if op in ("jwtrs", "selfverify") and o["ok"] and txt((c.get("hp") or {}).get("alg", "")) != b"RS256":
+            return "jwt-rs:accepted-other-alg", "a token whose header alg is not RS256 was accepted"
         if mu is None:
             return None
         accepted = o["ok"]
@@ -339,7 +346,7 @@ class Oracle:
                 return fam + ":genuine-rejected", "an issued token was rejected"
             if o.get("out", "") != info.get("payload", ""):
                 return fam + ":wrong-payload", "verification returned a payload other than the signed one"
-        elif op == "sesscheck":
+        elif op in ("sesscheck", "gatecheck"):
             want = now < info["expires"]
             if accepted and not want:
                 return "session:accepted-at-or-after-expiry", "session accepted %d ns after its expiry" % (now - info["expires"])
